@@ -664,7 +664,7 @@ theorem select_partial (F : FpuSpec) (frm to : ATy) (s : FState) (x y : AVal)
       | int t => simp [ATy.isFp] at hfp
 
       | f32 =>
-        simp only [FpC11.convert, Option.some.injEq] at hc; subst hc
+        simp only [ChibiVerif.Spec.FpC11.convert, Option.some.injEq] at hc; subst hc
         cases f with
         | bool =>
           obtain ⟨s', hrun, hx, hst, hcw, hrsp⟩ := sel_bool_f32 F s v hh (by have := hh.1; simp [ITy.inRange, ITy.min, ITy.max, ITy.signed, ITy.bits] at this; omega)
@@ -694,7 +694,7 @@ theorem select_partial (F : FpuSpec) (frm to : ATy) (s : FState) (x y : AVal)
           obtain ⟨s', hrun, hx, hst, hcw, hrsp⟩ := sel_u64_f32 F s v hh (by simpa [inKnownRegion, ATy.isFp] using hreg)
           exact ⟨s', hrun, hx, hcw, by simp [stBelow, hst], hrsp⟩
       | f64 =>
-        simp only [FpC11.convert, Option.some.injEq] at hc; subst hc
+        simp only [ChibiVerif.Spec.FpC11.convert, Option.some.injEq] at hc; subst hc
         cases f with
         | bool =>
           obtain ⟨s', hrun, hx, hst, hcw, hrsp⟩ := sel_bool_f64 F s v hh (by have := hh.1; simp [ITy.inRange, ITy.min, ITy.max, ITy.signed, ITy.bits] at this; omega)
@@ -724,7 +724,7 @@ theorem select_partial (F : FpuSpec) (frm to : ATy) (s : FState) (x y : AVal)
           obtain ⟨s', hrun, hx, hst, hcw, hrsp⟩ := sel_u64_f64 F s v hh (by simpa [inKnownRegion, ATy.isFp] using hreg)
           exact ⟨s', hrun, hx, hcw, by simp [stBelow, hst], hrsp⟩
       | f80 =>
-        simp only [FpC11.convert, Option.some.injEq] at hc; subst hc
+        simp only [ChibiVerif.Spec.FpC11.convert, Option.some.injEq] at hc; subst hc
         cases f with
         | bool =>
           obtain ⟨s', hrun, hst, hcw, hrsp⟩ := sel_bool_f80 F s v hh (by have := hh.1; simp [ITy.inRange, ITy.min, ITy.max, ITy.signed, ITy.bits] at this; omega)
@@ -764,7 +764,7 @@ theorem select_partial (F : FpuSpec) (frm to : ATy) (s : FState) (x y : AVal)
     | f32 b =>
       cases to with
       | int t =>
-        simp only [FpC11.convert, Option.map_eq_some_iff] at hc
+        simp only [ChibiVerif.Spec.FpC11.convert, Option.map_eq_some_iff] at hc
         obtain ⟨i, hi, rfl⟩ := hc
         cases t with
         | bool =>
@@ -804,15 +804,15 @@ theorem select_partial (F : FpuSpec) (frm to : ATy) (s : FState) (x y : AVal)
           obtain ⟨s', hrun, hr, hst, hcw, hrsp⟩ := sel_f32_u64 F s b hh i htr hin (by simpa [inKnownRegion, htr] using hreg)
           exact ⟨s', hrun, hr, hcw, by simp [stBelow, hst], hrsp⟩
       | f32 =>
-        simp only [FpC11.convert, Option.some.injEq] at hc; subst hc
+        simp only [ChibiVerif.Spec.FpC11.convert, Option.some.injEq] at hc; subst hc
         exact ⟨s, run_nil F s, hh, rfl, rfl, rfl⟩
       | f64 =>
-        simp only [FpC11.convert, Option.some.injEq] at hc; subst hc
+        simp only [ChibiVerif.Spec.FpC11.convert, Option.some.injEq] at hc; subst hc
         obtain ⟨s', hrun, hx, hst, hcw, hrsp⟩ := eff_f32f64 F s
         refine ⟨s', hrun, ?_, hcw, by simp [stBelow, hst], hrsp⟩
         simp only [Holds] at hh ⊢; rw [hx, hh]
       | f80 =>
-        simp only [FpC11.convert, Option.some.injEq] at hc; subst hc
+        simp only [ChibiVerif.Spec.FpC11.convert, Option.some.injEq] at hc; subst hc
         obtain ⟨s', hrun, hst, hcw, hrsp⟩ := eff_f32f80 F s
         refine ⟨s', hrun, ⟨s.st, ?_⟩, hcw, by simp [stBelow, hst], hrsp⟩
         rw [hst]; simp only [Holds] at hh; rw [hh]
@@ -824,7 +824,7 @@ theorem select_partial (F : FpuSpec) (frm to : ATy) (s : FState) (x y : AVal)
     | f64 b =>
       cases to with
       | int t =>
-        simp only [FpC11.convert, Option.map_eq_some_iff] at hc
+        simp only [ChibiVerif.Spec.FpC11.convert, Option.map_eq_some_iff] at hc
         obtain ⟨i, hi, rfl⟩ := hc
         cases t with
         | bool =>
@@ -864,15 +864,15 @@ theorem select_partial (F : FpuSpec) (frm to : ATy) (s : FState) (x y : AVal)
           obtain ⟨s', hrun, hr, hst, hcw, hrsp⟩ := sel_f64_u64 F s b hh i htr hin (by simpa [inKnownRegion, htr] using hreg)
           exact ⟨s', hrun, hr, hcw, by simp [stBelow, hst], hrsp⟩
       | f32 =>
-        simp only [FpC11.convert, Option.some.injEq] at hc; subst hc
+        simp only [ChibiVerif.Spec.FpC11.convert, Option.some.injEq] at hc; subst hc
         obtain ⟨s', hrun, hx, hst, hcw, hrsp⟩ := eff_f64f32 F s
         refine ⟨s', hrun, ?_, hcw, by simp [stBelow, hst], hrsp⟩
         simp only [Holds] at hh ⊢; rw [hx, hh]
       | f64 =>
-        simp only [FpC11.convert, Option.some.injEq] at hc; subst hc
+        simp only [ChibiVerif.Spec.FpC11.convert, Option.some.injEq] at hc; subst hc
         exact ⟨s, run_nil F s, hh, rfl, rfl, rfl⟩
       | f80 =>
-        simp only [FpC11.convert, Option.some.injEq] at hc; subst hc
+        simp only [ChibiVerif.Spec.FpC11.convert, Option.some.injEq] at hc; subst hc
         obtain ⟨s', hrun, hst, hcw, hrsp⟩ := eff_f64f80 F s
         refine ⟨s', hrun, ⟨s.st, ?_⟩, hcw, by simp [stBelow, hst], hrsp⟩
         rw [hst]; simp only [Holds] at hh; rw [hh]
@@ -885,7 +885,7 @@ theorem select_partial (F : FpuSpec) (frm to : ATy) (s : FState) (x y : AVal)
       obtain ⟨rest, hrest⟩ := hh
       cases to with
       | int t =>
-        simp only [FpC11.convert, Option.map_eq_some_iff] at hc
+        simp only [ChibiVerif.Spec.FpC11.convert, Option.map_eq_some_iff] at hc
         obtain ⟨i, hi, rfl⟩ := hc
         cases t with
         | bool =>
@@ -925,15 +925,15 @@ theorem select_partial (F : FpuSpec) (frm to : ATy) (s : FState) (x y : AVal)
           obtain ⟨s', hrun, hr, hst, hcw, hrsp⟩ := sel_f80_u64 F s b rest hrest i htr hin (by simpa [inKnownRegion, htr] using hreg)
           exact ⟨s', hrun, hr, hcw, by simp [stBelow, hst, hrest], hrsp⟩
       | f32 =>
-        simp only [FpC11.convert, Option.some.injEq] at hc; subst hc
+        simp only [ChibiVerif.Spec.FpC11.convert, Option.some.injEq] at hc; subst hc
         obtain ⟨s', hrun, hx, hst, hcw, hrsp⟩ := eff_f80f32 F s b rest hrest
         exact ⟨s', hrun, hx, hcw, by simp [stBelow, hst, hrest], hrsp⟩
       | f64 =>
-        simp only [FpC11.convert, Option.some.injEq] at hc; subst hc
+        simp only [ChibiVerif.Spec.FpC11.convert, Option.some.injEq] at hc; subst hc
         obtain ⟨s', hrun, hx, hst, hcw, hrsp⟩ := eff_f80f64 F s b rest hrest
         exact ⟨s', hrun, hx, hcw, by simp [stBelow, hst, hrest], hrsp⟩
       | f80 =>
-        simp only [FpC11.convert, Option.some.injEq] at hc; subst hc
+        simp only [ChibiVerif.Spec.FpC11.convert, Option.some.injEq] at hc; subst hc
         exact ⟨s, run_nil F s, ⟨rest, hrest⟩, rfl, rfl, rfl⟩
 
 end ChibiVerif.Fp
